@@ -810,6 +810,16 @@ func builtinModels() map[string]modelFn {
 		}
 		return []T{ok}
 	}
+	// sync.Pool: Get hands out some object (a pooled one or a new one: an arbitrary value, which the caller type-asserts),
+	// Put takes it back; neither writes state under contract (assumption A13: the pool's New function only allocates)
+	m["(*sync.Pool).Get"] = func(ex *Exec, st *State, args []T, c *ssa.CallCommon) []T {
+		ex.vc.assumed["A13: sync.Pool.Get/Put write no state under contract (the pool's New function only allocates)"] = true
+		return []T{ex.vc.fresh("pool.get", SVal)}
+	}
+	m["(*sync.Pool).Put"] = func(ex *Exec, st *State, args []T, c *ssa.CallCommon) []T {
+		ex.vc.assumed["A13: sync.Pool.Get/Put write no state under contract (the pool's New function only allocates)"] = true
+		return nil
+	}
 	m["(*sync.Once).Do"] = func(ex *Exec, st *State, args []T, c *ssa.CallCommon) []T {
 		ex.vc.note("sync.Once.Do body skipped")
 		return nil
